@@ -27,6 +27,8 @@ MUT = [
     ("DenyList(False)", lambda: S.DenyList(False), lambda c: True),
     ("{'params','stats'}", lambda: {'params', 'stats'}, lambda c: c in ('params', 'stats')),
     ("[]", lambda: [], lambda c: False),
+    # a name of which other collection names are proper substrings
+    ("'cache_stats'", lambda: 'cache_stats', lambda c: c == 'cache_stats'),
 ]
 NMUT = len(MUT)
 NOPS = 7
@@ -216,10 +218,13 @@ def apply_contract(mi, frozen, with_cache, a, b, x, n, k0, c0, n0, h0, k1, c1, n
   snap, ids = snapshot(variables)
   in_ids = dict_ids(variables, set())
   outs = []
+  mut_arg, mut_pristine = mk(), mk()
   for rep in range(2):
     log = []
-    out = S.apply(lambda sc, xx: run_program(sc, xx, prog, log), mutable=mk())(
+    out = S.apply(lambda sc, xx: run_program(sc, xx, prog, log), mutable=mut_arg)(
         variables, x)
+    if type(mut_arg) is not type(mut_pristine) or mut_arg != mut_pristine:
+      return False
     snap2, ids2 = snapshot(variables)
     if snap2 != snap or ids2 != ids:
       return False                    # input changed (content or container ids)
@@ -338,10 +343,11 @@ def module_contract(mi, shared, style, w0, w1, c0, c1, x, sow, capture):
     variables['params']['k'] = 2
   snap, ids = snapshot(variables)
   mutable = mk()
-  # 'intermediates' only when asked
+  pristine = mk()
+  # 'intermediates' only when asked (explicit list, built without flax helpers)
   if sow:
-    mutable = S.union_filters(mutable, 'intermediates') if mi != 0 else [
-        'intermediates']
+    mutable = [c for c in ('params', 'stats') if mref(c)] + ['intermediates']
+    pristine = list(mutable)
   smut = mref('stats')
 
   def expected():
@@ -360,6 +366,8 @@ def module_contract(mi, shared, style, w0, w1, c0, c1, x, sow, capture):
                     capture_intermediates=bool(capture))
     if snapshot(variables) != (snap, ids) or dict(vars(mod)) != before:
       return False
+    if type(mutable) is not type(pristine) or mutable != pristine:
+      return False                 # the caller's filter object was modified
     outs.append(out)
   y_ref, cc = expected()
   for out in outs:
